@@ -52,6 +52,17 @@ def run_history(ops):
             share = sb._context[-1].output if len(sb._context) > before_ctx else None
             if share != out:
                 fails.append(('execution_share', step, share, out))
+        elif kind == 'run_echo':
+            # real_io=True: output is echoed to the real stdout as well as captured; the input queue is cleared afterwards
+            code, out = op[1], op[2]
+            before_ctx = len(sb._context)
+            sb.run(code, real_io=True)
+            queue = []
+            raw += out
+            lines += lines_view(out)
+            share = sb._context[-1].output if len(sb._context) > before_ctx else None
+            if share != out:
+                fails.append(('execution_share', step, share, out))
         elif kind == 'run_timeout':
             # threaded execution that prints and then exceeds the limit: what it wrote is still its output
             code, out = op[1], op[2]
@@ -151,6 +162,10 @@ def bounded(arg):
             ('run_timeout', "import sys\nsys.stdout.write('w')\nprint('  x  ')\nwhile True:\n    pass", "w  x  \n"),
             ('run_timeout', "while True:\n    pass", "")]
     a, b = ('run', "print('a')", "a\n"), ('run', "print()", "\n")
+    echo = [('run_echo', "print('a')\nprint('b', end='')", "a\nb"),
+            ('run_echo', "import sys\nsys.stdout.writelines(x for x in ['a\\n', 'b\\n'])", "a\nb\n"),
+            ('run_echo', "import sys\nsys.stdout.writelines(['c', 'd'])\nsys.stdout.write('e')\nsys.stdout.flush()", "cde")]
+    hist += [[t] for t in echo] + [[('run', "print('a')", "a\n"), echo[1], ('run', "print()", "\n")]]
     hist += [[t] for t in slow] + [[a, slow[0], b], [slow[1], ('clear_output',), a], [slow[2], a], [slow[0], slow[0]]]
     hist += [gen_history(rnd, rnd.randint(1, 6)) for _ in range(n)]
     for ops in hist:
@@ -167,7 +182,7 @@ def bounded(arg):
             failures.append({'id': what, 'canon': canon, 'detail': 'step %d: got %r want %r' % (f[1], f[2], f[3]),
                              'history': [list(o) for o in ops]})
     return {'name': 'B-io', 'bound': 'all %d ordered pairs of %d printing programs + %d random histories of 1-6 operations '
-            '(run / run with input() / clear_output / set_input / clear_input) on one real Sandbox + 7 histories with a '
+            '(run / run with input() / clear_output / set_input / clear_input) on one real Sandbox + 4 histories with output echoed to the real stdout (real_io) + 7 histories with a '
             'threaded execution that prints and then runs out of time (0.3 s)' % (
                 len(PROGRAMS) ** 2, len(PROGRAMS), n),
             'evaluations': evaluations, 'distinct_nontrivial': len(distinct),
